@@ -6,9 +6,20 @@
 (* and checks the step properties PA_* on every transition leaving it.                                 *)
 EXTENDS Auth
 ASSUME TableIsWellFormed == TableOK
-MCView == grants
-\* every fee-grant relation is reached (an expired allowance survives exactly one block, so both directions are
-\* never expired at the same time)
-Reachable == {g \in [Pairs -> GStates] : ~(g[<<A, B>>] = "expired" /\ g[<<B, A>>] = "expired")}
-CoverGrants == TLCGet("distinct") = Cardinality(Reachable)
+MCView == <<grants, gkind>>
+\* every fee-grant relation is reached: per direction none / revoked / active in 8 kinds / expired in 4 kinds (an expired
+\* allowance survives exactly one block, so both directions are never expired at the same time)
+PairStates == {<<"none", "-">>, <<"revoked", "-">>} \cup ({"active"} \X AKinds) \cup ({"expired"} \X BaseKinds)
+NReachable == Cardinality(PairStates) * Cardinality(PairStates) - Cardinality(BaseKinds) * Cardinality(BaseKinds)
+CoverGrants == TLCGet("distinct") = NReachable
+\* quick configuration: the two-message transactions range over every pair of plain kinds only where both allowances are
+\* plain basic ones; under the other allowance kinds the honest message is a keep-alive (the ante decision does not look
+\* at the kind of the message).  Auth_mc_full checks Next itself.
+PlainBasic == \A pr \in Pairs : gkind[pr] \in {"-", "basic"}
+NextQ == \/ GrantOps
+         \/ Reimport
+         \/ \E k \in Kinds, s \in P, c \in P, n \in P : Deliver(k, s, c, n)
+         \/ \E k1 \in (IF PlainBasic THEN Plain ELSE {"VaKeepAlive"}), k2 \in Plain, s \in Users, c \in Users, ord \in {1, 2} :
+               Deliver2(k1, k2, s, c, ord)
+         \/ \E k \in Keyed, s \in Users, c \in Users, n \in Users, v \in Variants : DeliverK(k, s, c, n, v)
 =============================================================================
